@@ -1199,6 +1199,120 @@ theorem resolveAll_names (L : List Str) (orc : Oracle) (dflt : Str) (fuel : Nat)
         · exact resolveAll_names L orc dflt fuel rest w2 w' h ok2
         · simp at h
 
+theorem checkAll_names (inp : Input) (L : List Str) : ∀ (nss : List NS) (ws : List Warning) outs ws',
+    checkAll inp nss ws = .ok (outs, ws') → NamesOK L nss → ∀ o ∈ outs, o.locales.map Loc.name = L
+  | [], ws, outs, ws', h, _, o, ho => by
+    simp only [checkAll, Res.ok.injEq, Prod.mk.injEq] at h
+    rw [← h.1] at ho; simp at ho
+  | ns :: rest, ws, outs, ws', h, hok, o, ho => by
+    simp only [checkAll] at h
+    split at h
+    · simp at h
+    · simp at h
+    · rename_i locs bki ws1 hc
+      split at h
+      · rename_i outs1 ws2 hr
+        simp only [Res.ok.injEq, Prod.mk.injEq] at h
+        rw [← h.1] at ho
+        rcases List.mem_cons.mp ho with rfl | ho
+        · simp only
+          rw [C20_locales_check_partial _ _ _ _ _ _ _ _ _ hc]
+          exact hok ns (by simp)
+        · exact checkAll_names inp L rest ws1 outs1 ws2 hr (fun x hx => hok x (by simp [hx])) o ho
+      · simp at h
+      · simp at h
+
+theorem resolved_names (inp : Input) (w : World) (ws : List Warning) (h : Pipeline.resolved inp = .ok (w, ws)) :
+    NamesOK inp.cfg.locales w.nss := by
+  unfold Pipeline.resolved at h
+  split at h
+  · simp at h
+  · simp at h
+  · rename_i w0 paths hp
+    split at h
+    · simp at h
+    · simp at h
+    · rename_i nss1 ws1 hm
+      simp only at h
+      split at h
+      · simp at h
+      · simp at h
+      · rename_i w2 hr
+        simp only [Res.ok.injEq, Prod.mk.injEq] at h
+        rw [← h.1]
+        refine resolveAll_names _ _ _ _ _ _ _ hr ?_
+        simp only
+        refine mergePluralsAll_names _ _ _ _ _ _ hm ?_
+        unfold parseRaw at hp
+        split at hp
+        all_goals
+          dsimp only at hp
+          split at hp
+          · simp at hp
+          · simp at hp
+          · rename_i nss0 hd
+            simp only [Res.ok.injEq, Prod.mk.injEq] at hp
+            rw [← hp.1]
+            exact decodeAll_names inp _ _ hd
+
+theorem run_parts (inp : Input) (out : Output) (h : Pipeline.run inp = .ok out) :
+    ∃ w ws ws', Pipeline.resolved inp = .ok (w, ws) ∧ checkAll inp w.nss ws = .ok (out.nss, ws') := by
+  unfold Pipeline.run at h
+  split at h
+  · simp at h
+  · simp at h
+  · rename_i w ws hr
+    split at h
+    · simp at h
+    · simp at h
+    · rename_i outs ws' hc
+      simp only [Res.ok.injEq] at h
+      rw [← h]
+      exact ⟨w, ws, ws', hr, hc⟩
+
+theorem ns_uses (inp : Input) (ns : NS) (ws : List Warning) (locs : List Loc) (bki : BKI) (ws' : List Warning)
+    (hc : checkLocalesInner inp.suppress 1000000 inp.cfg.inherits ns.key ns.locales ws = .ok (locs, bki, ws'))
+    (hnd : ∀ dl, ns.locales.head? = some dl → NDLoc 1000000 dl) (o : Opt) :
+    KeysUse bki o ↔ NsUses ns o := by
+  rw [← C20_options_iff]
+  cases hl : ns.locales with
+  | nil => rw [hl] at hc; simp [checkLocalesInner] at hc
+  | cons dl others =>
+    rw [hl] at hc
+    rw [checkLocalesInner_uses hc (hnd dl (by rw [hl]; rfl)) o]
+    unfold NsUses
+    rw [hl]
+    constructor
+    · rintro ⟨p, hp, hrest⟩
+      exact ⟨dl, rfl, p, by rw [← checkLocalesInner_leaf_paths hc p]; exact hp, hrest⟩
+    · rintro ⟨dl', hdl, p, hp, hrest⟩
+      simp only [List.head?_cons, Option.some.injEq] at hdl
+      subst hdl
+      exact ⟨p, by rw [checkLocalesInner_leaf_paths hc p]; exact hp, hrest⟩
+
+theorem checkAll_uses (inp : Input) : ∀ (nss : List NS) (ws : List Warning) outs ws',
+    checkAll inp nss ws = .ok (outs, ws') →
+    (∀ ns ∈ nss, ∀ dl, ns.locales.head? = some dl → NDLoc 1000000 dl) →
+    ∀ o, (∃ out ∈ outs, KeysUse out.keys o) ↔ ∃ ns ∈ nss, NsUses ns o
+  | [], ws, outs, ws', h, _, o => by
+    simp only [checkAll, Res.ok.injEq, Prod.mk.injEq] at h
+    rw [← h.1]; simp
+  | ns :: rest, ws, outs, ws', h, hnd, o => by
+    simp only [checkAll] at h
+    split at h
+    · simp at h
+    · simp at h
+    · rename_i locs bki ws1 hc
+      split at h
+      · rename_i outs1 ws2 hr
+        simp only [Res.ok.injEq, Prod.mk.injEq] at h
+        rw [← h.1]
+        have h1 := ns_uses inp ns ws locs bki ws1 hc (hnd ns (by simp)) o
+        have h2 := checkAll_uses inp rest ws1 outs1 ws2 hr (fun x hx => hnd x (by simp [hx])) o
+        simp only [List.mem_cons, exists_eq_or_imp, h1, h2]
+      · simp at h
+      · simp at h
+
 end names
 
 end I18nVerif.Datakey
